@@ -115,9 +115,15 @@ ensures
     final(errors)@.len() >= old(errors)@.len(), final(errors)@.len() <= old(errors)@.len() + 1,
     forall|k: int| 0 <= k < old(errors)@.len() ==> final(errors)@[k] == old(errors)@[k],
     forall|k: int| old(errors)@.len() <= k < final(errors)@.len() ==> (#[trigger] final(errors)@[k]).1 == timing_literal.sp_syntax().sp_text_range(),      //@C12:unit-diagnostic-on-the-node''')
+    # oq3_syntax/src/lib.rs: the two public entry points cannot be verified (Parse / ParseOrErrors carry PhantomData<fn() -> T>, a type
+    # Verus rejects); they are glue around parse_text / parse_text_check_lex + validation, and their text is pinned
+    lb = U.file('crates/oq3_syntax/src/lib.rs')
+    for _fn in ('parse', 'parse_check_lex'):
+        lb.guard(_fn, None, impl='SourceFile', why='SourceFile::%s is glue around parsing::parse_text(_check_lex) and validation::validate; PhantomData<fn() -> T> is outside the dialect' % _fn)
     # source_file.rs: the reporting interface hands out the diagnostic's own range
     sf = U.file('crates/oq3_source_file/src/source_file.rs')
     sf.fn('range_to_span', ret='r', props=P, spec='ensures r.start == range.start.raw, r.end == range.end.raw,      //@C12:printed-span-is-the-range')
+    sf.guard('have_syntax_errors', None, block=r'pub trait SourceTrait\b', why='SourceTrait::have_syntax_errors ("this file or any included file has a syntax diagnostic") is a trait default method that recurses through its own impl: Verus rejects the shape')
     sf.item('trait', 'ErrorTrait')
     sf.impl('ErrorTrait for oq3_syntax::SyntaxError', [
         ('message', dict(props=P, trusted=True, note='&str -> String (to_string)')),
